@@ -1262,4 +1262,69 @@ func c15OnlyEOFIsClean(ctx *core.Ctx, r *RT) {
 	if n == 0 {
 		ctx.Unresolved("C15.R10", "reader loop", "no TypeId() test of a transport exception in a reader loop")
 	}
+	// the clean close itself — Close() with no cause — is reached from the read-error
+	// path only on the edge where the exception IS END_OF_FILE
+	for _, fn := range r.Fns {
+		if !cycleReaches(fn, isExec) {
+			continue
+		}
+		for _, g := range localCone(fn, 2) {
+			if g != fn {
+				takesErr := false
+				for i := 0; i < g.Signature.Params().Len(); i++ {
+					if isErrorType(g.Signature.Params().At(i).Type()) {
+						takesErr = true
+					}
+				}
+				if !takesErr {
+					continue
+				}
+			}
+			nc := 0
+			for _, c := range ssax.Calls(g) {
+				if c.Static == nil || c.Static.Name() != "Close" || c.Static.Signature.Recv() == nil || len(g.Params) == 0 || len(c.Common.Args) == 0 || ssax.Strip(c.Common.Args[0]) != ssa.Value(g.Params[0]) {
+					continue
+				}
+				if _, isDefer := c.Instr.(*ssa.Defer); isDefer {
+					continue
+				}
+				nc++
+				blk := c.Instr.(ssa.Instruction).Block()
+				guarded := false
+				for cur := blk; cur != nil && !guarded; cur = cur.Idom() {
+					if len(cur.Preds) != 1 {
+						continue
+					}
+					p := cur.Preds[0]
+					iff, ok := p.Instrs[len(p.Instrs)-1].(*ssa.If)
+					if !ok {
+						continue
+					}
+					bo, ok := iff.Cond.(*ssa.BinOp)
+					if !ok || (bo.Op != token.EQL && bo.Op != token.NEQ) {
+						continue
+					}
+					var k ssa.Value
+					for _, pair := range [][2]ssa.Value{{bo.X, bo.Y}, {bo.Y, bo.X}} {
+						if cv, isC := CallValue(pair[0]); isC && cv.ShortName() == "TypeId" {
+							k = pair[1]
+						}
+					}
+					if k == nil {
+						continue
+					}
+					v, isK := ssax.ConstInt(k)
+					want := p.Succs[0]
+					if bo.Op == token.NEQ {
+						want = p.Succs[1]
+					}
+					if isK && v == eof && want == cur {
+						guarded = true
+					}
+				}
+				ctx.Check(guarded, "C15.R10", ssax.Name(g)+sprintf(" › clean close #%d is reached only for END_OF_FILE", nc), r.IPos(c.Instr), "Close() lies on the TypeId() == END_OF_FILE edge",
+					"the read-error path closes the transport without a cause for failures other than a peer hang-up (any transport exception, say — an oversized frame header, a connection reset): Closed() yields nil, the monitor sees a clean close and never re-opens the transport")
+			}
+		}
+	}
 }
